@@ -14,7 +14,7 @@ FLAGS = re.MULTILINE | re.DOTALL
 
 PATTERNS = ["word", "digits", "kv", "optgrp", "linestart", "lineend", "strstart", "strend",
             "anyspan", "greek", "accent", "astral", "optx", "a_opt_a", "either", "lookbehind",
-            "wordb", "neg_cls", "ctrl", "raw_named", "raw_ws", "raw_dot"]
+            "wordb", "neg_cls", "ctrl", "raw_named", "raw_ws", "raw_dot", "heart", "bs_capture"]
 
 PATHS = ["/pgsim/data/a1 b22.txt", "/pgsim/x=1/k=22 ab9.log", "/pgsim/αβγ 12/é #7.txt",
          "/pgsim/aaa/axb a b.md", "/pgsim/n/foo bar9 is cat 2024-05"]
